@@ -102,7 +102,8 @@ def main(argv=None):
     known_sigs = {k['signature']: k for k in known if k['status'] == 'known'}
     new = {s: v for s, v in sigs.items() if s not in known_sigs}
     seen_known = {s: v for s, v in sigs.items() if s in known_sigs}
-    rdir = os.path.join(core.VERIF, 'replays', pid)
+    outdir = os.environ.get('VERIF_OUT_DIR', core.VERIF)   # scratch runs (seed sweeps) write elsewhere
+    rdir = os.path.join(outdir, 'replays', pid)
     os.makedirs(rdir, exist_ok=True)
     lines = []
     for s, k in known_sigs.items():
@@ -152,8 +153,8 @@ def main(argv=None):
     }
     ev = {'property_id': pid, 'tier': args.tier, 'seed': seed, 'level': 'model_checking', 'coverage': cov,
           'assumptions': meta.get('assumptions', []), 'wall_s': round(wall, 2), 'violations': len(new)}
-    os.makedirs(os.path.join(core.VERIF, 'evidence'), exist_ok=True)
-    with open(os.path.join(core.VERIF, 'evidence', f'{pid}.json'), 'w') as f:
+    os.makedirs(os.path.join(outdir, 'evidence'), exist_ok=True)
+    with open(os.path.join(outdir, 'evidence', f'{pid}.json'), 'w') as f:
         json.dump(jsonable(ev), f, indent=1)
     for ln in lines:
         print(ln)
